@@ -89,3 +89,11 @@ Definition fresh_cur : dctx := mk_dctx [] [] None.
 (* def f(p): q = p * 2 ; p = 1 ; return q   (C02_param_relabel_refuted) *)
 Definition relabel_body : block :=
   blk [SAssign w_q (EBin Mult (EName w_p) (EInt 2)); SAssign w_p (EInt 1); SReturn (Some (EName w_q))].
+
+(* a, b = 1, 2.5          two new globals, no temporaries
+   a, x = a + 1, b * 2    an old and a new name: two temporaries
+   while ..: b, x = x, b  a swap inside a block: two temporaries *)
+Definition demo_tuple_pre : list stmt :=
+  [STuple [w_a; w_b] [EInt 1; EFloat (5 # 2)];
+   STuple [w_a; w_x] [EBin Add (EName w_a) (EInt 1); EBin Mult (EName w_b) (EInt 2)];
+   SWhile (blk [STuple [w_b; w_x] [EName w_x; EName w_b]])].
